@@ -136,7 +136,7 @@ MIR = [
 MIR += [q for q in _c13.MIR if q.name.startswith('c13_record_')]
 MIR += [q for q in _c04.MIR if q.name.startswith('c04_update_')]
 MIR += [q for q in _c02.MIR if q.name in ('c02_assign_c2_t2_r2',)]
-MIR += [q for q in _c12.MIR if q.name in ('c12_voting_q2_t1_r2', 'c12_voting_q1_t2_r2')]
+MIR += [q for q in _c12.MIR if q.name in ('c12_voting_q2_t1_r2', 'c12_voting_q1_t2_r2', 'c17_bestfit_three', 'c17_bestfit_contest')]
 
 
 # one whole predict call from an arbitrary valid tracker state (inductive step), see props/stepsort.py
